@@ -246,6 +246,10 @@ def o4(tier):
             if ev_is(e, 'validate_mime_type', 'validate_filename') and e.ret is not None:
                 base = u(e.ret)
                 later = [x for x in p.trace[i + 1:] if any(base and u(a).lstrip('*').startswith(base) for a in x.args)]
+                # ... or branches on its content (a comparison of the accepted value with anything shows up as a path-condition conjunct over `<validator>.Ok.0`)
+                inspected = [str(c)[:80] for c in p.pc if base and (base + '.Ok.0') in str(c)]
+                if inspected and not later:
+                    later = [type('E', (), {'short': 'a comparison of the accepted value (' + inspected[0] + ')'})()]
                 ob.require(not later, f'O4/imeta-second-gate/{e.short.split("::")[-1]}', f'after {e.short} accepted the value, parse_imeta_tag examines it again with {[x.short for x in later][:3]}: '
                            'the receiver refuses (or alters) tags the sender legitimately produced, so create_imeta_tag / parse_imeta_tag no longer round-trip', p)
         for e in p.trace:
